@@ -4,14 +4,17 @@
 //! validation against spec/CollectionTrace.tla.
 //!
 //! usage: drive_collection <workloads.json> <traces.ndjson> <stats.json> <mode>
-//!   mode = clean | crash | nested
+//!   mode = clean | crash | nested | fault
+//!   fault: a storage fault (error returned; applied or not) on every k-th backend mutation of the
+//!   workload; a poisoned handle is probed (it must refuse and write nothing), then the collection is
+//!   reopened through the SAME database and the workload continues
 //! workloads.json: [{"init_idx":[..],"wanted":[..],"rm":[..],"ops":[..]}, ...]
 
 use anda_db::{collection::Collection, database::AndaDB, error::DBError};
 use object_store::memory::InMemory;
 use serde_json::{Value, json};
 use std::{io::Write, sync::Arc};
-use verif_harness::{coll::*, tracestore::TraceStore};
+use verif_harness::{coll::*, tracestore::{Fault, TraceStore}};
 
 const DEFAULT_MAX_ID: u64 = 12;
 
@@ -36,6 +39,17 @@ async fn open_col(
     traced: bool,
 ) -> Result<(AndaDB, Arc<Collection>), DBError> {
     let db = connect(store).await?;
+    let col = open_in(&db, tr, wanted, rm, traced).await?;
+    Ok((db, col))
+}
+
+async fn open_in(
+    db: &AndaDB,
+    tr: &Tracer,
+    wanted: Vec<String>,
+    rm: Vec<String>,
+    traced: bool,
+) -> Result<Arc<Collection>, DBError> {
     let tr2 = tr.clone();
     let col = db
         .open_or_create_collection(CDoc::schema().unwrap(), col_config(), async move |c| {
@@ -54,11 +68,20 @@ async fn open_col(
             Ok(())
         })
         .await?;
-    Ok((db, col))
+    Ok(col)
 }
 
 /// Executes one workload; returns (trace lines, mutations of the traced part, recovery mutations, crashed?)
 async fn run_workload(w: &Value, crash_at: Option<u64>, nested_at: Option<u64>) -> (Vec<String>, u64, u64, bool) {
+    run_workload_f(w, crash_at, nested_at, None).await
+}
+
+async fn run_workload_f(
+    w: &Value,
+    crash_at: Option<u64>,
+    nested_at: Option<u64>,
+    fault: Option<(u64, Fault)>,
+) -> (Vec<String>, u64, u64, bool) {
     let (store, handle) = TraceStore::wrap(Arc::new(InMemory::new()));
     let tr = Tracer::new(handle.clone());
     let init_idx = strs(&w["init_idx"]);
@@ -84,6 +107,9 @@ async fn run_workload(w: &Value, crash_at: Option<u64>, nested_at: Option<u64>) 
     }));
     if let Some(k) = crash_at {
         handle.crash_at_absolute(base + k);
+    }
+    if let Some((k, f)) = fault {
+        handle.fault_at(k, f);
     }
     let mut crashed = false;
     for op in w["ops"].as_array().unwrap() {
@@ -127,7 +153,42 @@ async fn run_workload(w: &Value, crash_at: Option<u64>, nested_at: Option<u64>) 
             tr.drain();
             break;
         }
-        tr.emit(ret);
+        if fault.is_some() {
+            // fault tier: every return says whether the handle is poisoned now
+            let poisoned = run.col.as_ref().map(|c| format!("{:?}", c.state()) == "Poisoned").unwrap_or(false);
+            ret["poisoned"] = json!(poisoned);
+            tr.emit(ret);
+            if poisoned {
+                let col = run.col.take().unwrap();
+                tr.emit(json!({"e": "obs", "state": format!("{:?}", col.state())}));
+                // a poisoned handle refuses and writes nothing
+                for dead in [json!({"op": "add", "val": 4}), json!({"op": "flush"})] {
+                    let mut call = dead.clone();
+                    call["e"] = json!("call");
+                    call["dead"] = json!(true);
+                    tr.emit(call);
+                    let mut r = exec_op(&col, &dead).await;
+                    r["dead"] = json!(true);
+                    tr.emit(r);
+                }
+                drop(col);
+                // recovery only on reopen: the SAME database discards the poisoned handle and reloads
+                tr.emit(json!({"e": "call", "op": "open"}));
+                let db = run.db.as_ref().unwrap();
+                match open_in(db, &tr, wanted.clone(), rm.clone(), true).await {
+                    Ok(col) => {
+                        tr.emit(json!({"e": "ret", "op": "open", "ok": true}));
+                        run.col = Some(col);
+                    }
+                    Err(e) => {
+                        tr.emit(json!({"e": "ret", "op": "open", "ok": false, "err": format!("{e}")}));
+                        break;
+                    }
+                }
+            }
+        } else {
+            tr.emit(ret);
+        }
         if let Some(col) = &run.col {
             let obs = observe(col, MAX_ID).await;
             tr.emit(obs);
@@ -232,6 +293,15 @@ async fn main() {
                         write_trace(lines, json!({"w": wi, "mode": "nested", "k": k, "j": j}), &mut out);
                         nested_points += 1;
                     }
+                }
+            }
+        }
+        if mode == "fault" {
+            for k in 1..=m {
+                for (f, fname) in [(Fault::ErrNoLand, "noland"), (Fault::LandThenErr, "landed")] {
+                    let (lines, _, _, _) = run_workload_f(w, None, None, Some((k, f))).await;
+                    write_trace(lines, json!({"w": wi, "mode": "fault", "k": k, "fault": fname}), &mut out);
+                    crash_points += 1;
                 }
             }
         }
